@@ -16,7 +16,9 @@ for d in sorted(glob.glob(os.path.join(HERE, "seeded", "*"))):
     caught = m.get("caught_by", [])
     ran = sorted(m.get("checks", {}))
     verdict = ", ".join(caught) if caught else "none"
-    rows.append("| %s | %s | %s | %s | %s |" % (os.path.basename(d), clip(summ, 230), clip(needs, 170), verdict, ", ".join(c for c in ran if c not in caught) or "-"))
+    if m.get("caught_by_some_runs") and not caught:
+        verdict = "none in the last run (" + ", ".join(m["caught_by_some_runs"]) + " in some runs)"
+    rows.append("| %s | %s | %s | %s | %s |" % (os.path.basename(d), clip(summ, 170), clip(needs, 120), verdict, ", ".join(c for c in ran if c not in caught) or "-"))
 print("| id | change (sub-agent's summary) | needs | caught by | run, not caught |")
 print("|----|------------------------------|-------|-----------|-----------------|")
 print("\n".join(rows))
